@@ -1,6 +1,11 @@
 mod common;
 mod py;
+mod c16;
 mod c18;
+mod ts;
+#[allow(dead_code, unused_imports)]
+#[path = "../../vendor/serde_case.rs"]
+mod serde_case;
 
 use common::*;
 
@@ -42,8 +47,10 @@ fn main() {
         "thorough" => Tier::Thorough,
         _ => usage(),
     };
+    let _ = std::fs::remove_dir_all(format!("{VERIF}/replays/found/{prop}"));
     let run = Run::new(prop, tier);
     match prop {
+        "C16" => c16::run(&run),
         "C18" => c18::run(&run),
         _ => {
             eprintln!("{prop}: no check implemented");
@@ -71,6 +78,7 @@ fn do_replay(prop: &'static str, file: &str) -> i32 {
     let check = v.get("check").and_then(|c| c.as_str()).unwrap_or("").to_string();
     let run = Run::new(prop, Tier::Quick);
     let res = match prop {
+        "C16" => c16::replay(&run, &v["case"]),
         "C18" => c18::replay(&run, &v["case"]),
         _ => Err(format!("{prop}: no replay implemented")),
     };
